@@ -39,6 +39,10 @@ Definition f_image := 17.
 Definition f_image_bg := 18.
 Definition f_mask := 19.
 Definition f_bright_bc_avg := 20.
+Definition f_contour := 21.
+Definition f_volume := 22.
+Definition f_pos_x := 23.
+Definition f_pos_y := 24.
 Definition k_lut := 1.
 Definition k_medium := 2.
 Definition k_temperature := 3.
